@@ -147,6 +147,10 @@ def run(ctx):
         inp = dict(days=nd, kept=nk, filter=filt, window=window, n_iter=budget, limits=lim)
         for nm in fit:
             lo, hi = lim[nm]
+            dlo, dhi = float(result.params[nm].min), float(result.params[nm].max)
+            if lo < hi and not (dom.relclose(dlo, lo, 1e-12, 1e-12) and dom.relclose(dhi, hi, 1e-12, 1e-12)):
+                bad("a declared parameter limit is not the documented one (tau in [30, 2 x last day index], M from the second-last cumulative to the stated "
+                    "maximum, initial pressure from the highest frac-face pressure to the stated maximum)", inp, dict(parameter=nm, declared=[dlo, dhi], expected=[lo, hi]))
             if lo < hi and not (lo - 1e-9 * abs(lo) <= fit[nm] <= hi + 1e-9 * abs(hi)):
                 bad("a fitted parameter lies outside its declared limits", inp, dict(parameter=nm, value=fit[nm]))
         if len(result.residual) != nk:
@@ -172,6 +176,32 @@ def run(ctx):
                                                  filter_zero_prod_days=filt, n_iter=budget)
             if not np.allclose(r0.residual, result.residual, rtol=1e-12, atol=1e-9):
                 bad("a smoothing window of one sample changes the pressures", inp, float(np.abs(r0.residual - result.residual).max()))
+    # ---------------- a short pressure spike (shut-in, gauge glitch) in a long record, initial-pressure guess below it: the fitted
+    # initial pressure must still be at least the HIGHEST frac-face pressure (a percentile of the record is not the maximum)
+    for k in range(2 if ctx.quick else 10):
+        nd = int(rng.integers(120, 260))
+        gas = rng.uniform(5, 60, nd)
+        pres = rng.uniform(1500, 3000, nd)
+        spike_at = rng.choice(np.arange(5, nd - 5), 1 + k % 2, replace=False)
+        pres[spike_at] = float(rng.uniform(4000, 4500))
+        prod = pd.DataFrame({"Days": np.arange(nd) * 1.0, "Gas": gas, "Pressure": pres})
+        guess = float(rng.uniform(3050, 3400))
+        for window in (None, 1):
+            with warnings.catch_warnings():
+                warnings.simplefilter("ignore")
+                try:
+                    result = fpm.fit_production_pressure(prod, pvt, guess, filter_window_size=window, pressure_imax=9000.0, inplace_max=1e6,
+                                                         filter_zero_prod_days=bool(k % 2), n_iter=int(rng.choice([1, 10, 40])))
+                except Exception as e:  # noqa: BLE001
+                    bad("fit_production_pressure raises on admissible data", dict(days=nd, spike_rows=len(spike_at), guess=guess, window=window), repr(e)[:200])
+                    continue
+            ev += 1
+            pfit = float(result.params["p_initial"].value)
+            lo_decl = float(result.params["p_initial"].min)
+            if pfit < float(pres.max()) * (1 - 1e-12) or lo_decl < float(pres.max()) * (1 - 1e-12):
+                bad("fitted initial pressure (or its declared lower limit) is below the highest frac-face pressure of the history",
+                    dict(days=nd, spike_rows=len(spike_at), highest_fracface_pressure=float(pres.max()), p_initial_guess=guess, window=window),
+                    dict(p_initial=pfit, declared_minimum=lo_decl))
     ctx.cov.update(evaluations=ev, distinct_nontrivial=n + nfit, traces_validated_against_impl=len(items),
                    rule="random (tau, M, p_initial) and monotone / arbitrary frac-face schedules below p_initial for the objective (compared with the "
                         "float instance of the Coq objective and with a direct call of the library simulation); production tables with zero-rate days "
